@@ -39,7 +39,9 @@ RULE = ("(i) seeded elections (4 vote types x list/multi profile x int/decimal/t
         "(ii) seeded files (column order, blank lines, none cells, decimal commas, upper/lower-case section lines), (iii) real corpus files, "
         "(iv) 2-3 seeded files sharing project ids with different cost/categories/targets parsed in one process, (v) 1-4 API edits "
         "(budget, cost, categories, project/vote added or removed, ballot replaced or changed in place, project/voter/instance metadata, "
-        "intermediate writes) of a built / parsed / written-and-parsed election, then write; "
+        "intermediate writes) of a built / parsed / written-and-parsed election, then write; (vi) the file API (C11_file.py): bytes on "
+        "disk with \\n / \\r\\n / \\r row ends, BOM, line breaks and \\r\\n inside quoted fields, parse_pabulib(path) vs ground truth vs "
+        "the string API, write_pabulib + parse_pabulib round trips; "
         "non-trivial = at least 2 projects and 2 votes and at least one non-mandatory column; distinct by hash of the CSV rows")
 ASSUMPTIONS = [
     "exact-arithmetic mode (FRACTION = gmpy2)",
@@ -1653,13 +1655,28 @@ def run(ctx):
     from . import C11_csv  # the text layer (csv reader/writer as pabulib.py configures them) against PabuModel/Csv.lean
 
     C11_csv.run_stream(ctx)
-    ctx.extra["seconds"] = {"generated_streams": round(t_gen, 1), "corpus_library": round(t_corpus - t_gen, 1), "model_and_diff": round(ctx.elapsed() - t_corpus, 1)}
+    t_csv = ctx.elapsed()
+    # the file API (parse_pabulib / write_pabulib): bytes on disk, BOM, \r\n row ends and \r\n inside quoted fields.  Drawn
+    # last, so that the draws of the streams above are what they were before this stream existed
+    from . import C11_file
+
+    lines, pend = [], []
+    C11_file.run_stream(ctx, lines, pend)
+    compare_with_model(ctx, lines, pend)
+    import shutil
+
+    while _TMP:  # the directory of the file route of stream (i)
+        shutil.rmtree(_TMP.pop(), ignore_errors=True)
+    ctx.extra["seconds"] = {"generated_streams": round(t_gen, 1), "corpus_library": round(t_corpus - t_gen, 1), "model_and_diff_and_text_layer": round(t_csv - t_corpus, 1), "file_api": round(ctx.elapsed() - t_csv, 1)}
 
 
 def search(ctx, disagreements):
     """predicate-only search (no model) with more cases"""
     rng = ctx.rng
     lines, pend = [], []
+    from . import C11_file
+
+    C11_file.run_stream(ctx, [], [])
     for _ in range(3000):
         if ctx.budget_s is not None and ctx.elapsed() > ctx.budget_s:
             break
@@ -1705,6 +1722,10 @@ def replay(payload):
         from . import C11_csv
 
         return C11_csv.replay(payload)
+    elif stream == "file_api":
+        from . import C11_file
+
+        return C11_file.replay(payload)
     else:
         return True, "nothing to replay (no concrete failing input in this file): " + str(payload.get("what"))
     if ctx.violations:
